@@ -23,6 +23,8 @@ SINKS = {"add_u64_mod": (0, 1), "sub_u64_mod": (0, 1), "negate_u64_mod": (0,)}
 REDUCERS = {"barrett_reduce_u64", "barrett_reduce_u128", "multiply_u64_mod", "multiply_u64operand_mod", "multiply_add_u64_mod",
             "multiply_u64operand_add_u64_mod", "add_u64_mod", "sub_u64_mod", "negate_u64_mod", "exponentiate_u64_mod",
             "modulo_uint", "reduce", "reduce_u128", "reduce_mul_u64", "div2_u64_mod", "dot_product_mod"}
+# routines whose &mut scalar output is a residue modulo the modulus they are given
+REDUCED_OUT = {"try_invert_u64_mod", "try_invert_u64_mod_u64", "try_minimal_primitive_root", "try_primitive_root"}
 # routines whose &mut output is a quotient / an unreduced integer
 UNREDUCED_OUT = {"divide_u128_u64_inplace", "divide_uint_inplace", "multiply_u64_u64", "multiply_uint", "add_u64", "sub_u64",
                  "multiply_uint_u64", "add_uint", "sub_uint", "left_shift_u128", "right_shift_u128", "divide_u192_u64_inplace"}
@@ -188,7 +190,16 @@ class Classifier:
                     return ("param", params[lid], lo[1])
                 return ("unk", "parameter `%s`" % lo[1])
             if lid in defs:
-                return self.join([self.classify(p, d, depth + 1, seen + (lid,)) for d in defs[lid]])
+                cs = [self.classify(p, d, depth + 1, seen + (lid,)) for d in defs[lid]]
+                # a scalar handed to a callee through `&mut` is (also) whatever that callee stores into it
+                for cn in (outs.get(lid, {}).get("calls", []) if facts.ty(e).replace("&mut ", "").replace("&", "").strip() == "u64" else []):
+                    if cn in UNREDUCED_OUT:
+                        cs.append(("any", "`%s` as written by %s (a quotient / unreduced integer)" % (lo[1], cn)))
+                    elif cn in REDUCED_OUT:
+                        cs.append(("red", "*"))
+                    else:
+                        cs.append(("unk", "`%s` as written by %s" % (lo[1], cn)))
+                return self.join(cs)
             # pattern-bound (for-loop element, closure parameter): element of what is iterated
             t = facts.ty(e).replace("&mut ", "").replace("&", "").strip()
             if t == "u64":
@@ -295,6 +306,10 @@ def run(facts, rep, floor=0, files=None):
             tk = target_key(f) if f else None
             if nm in SINKS and "uintsmallmod" in f.get("def", ""):
                 ops = SINKS[nm]
+            elif nm == "new" and "MultiplyU64ModOperand" in f.get("def", ""):
+                # the precomputed quotient floor(operand * 2^64 / modulus) fits a word only for operand < modulus
+                ops = (0,)
+                nm = "MultiplyU64ModOperand::new"
             elif tk in idsinks and tk != p:
                 ops = idsinks[tk]
             else:
@@ -322,6 +337,8 @@ def run(facts, rep, floor=0, files=None):
                     why = ("%s subtracts (adds) the modulus at most once, so the result is congruent but can exceed the modulus: a "
                            "residue buffer receives a value >= q (the object fails is_valid_for / later lazy arithmetic leaves its "
                            "range)" % nm) if nm in SINKS else \
+                          ("the quotient floor(operand * 2^64 / modulus) that %s precomputes fits a 64-bit word only for an operand "
+                           "below the modulus: products with this operand are wrong once it is larger" % nm) if nm.startswith("Multiply") else \
                           ("%s hands this operand back unchanged on one of its paths, so its result is not reduced either and is "
                            "compared / stored as if it were" % nm)
                     rep.violation(R, key, "operand %d of %s is not a residue — %s%s.  %s" % (oi, nm, via, c[1], why), facts.loc(p, x))
